@@ -98,7 +98,9 @@ def judge_record(rec):
             continue  # a key that plain objects inherit (constructor, toString, ..): left to C03's finding
         if sv and not doc.get("vvLoose", doc["vv"]):
             viol("schema-accepts-what-validator-rejects", doc.get("why") or "?", f"document {json.dumps(d)[:300]} is valid against the schema but validate() is false", d)
-        elif sv and doc["vv"] and doc["refStrict"] == "N" and doc["ref"] == "Y":
+        # (only where the validator itself, in strict mode, refuses the document: a strict verdict on which
+        # validator and reference differ is C11's subject - e.g. after `typeof Enum`, C01's finding)
+        elif sv and doc["vv"] and not doc.get("xs", False) and doc["refStrict"] == "N" and doc["ref"] == "Y":
             viol("schema-accepts-undeclared-key", "extra-key", f"document {json.dumps(d)[:300]} is valid against the schema but carries a key the type does not declare", d)
         elif (not sv) and doc["refStrict"] == "Y" and doc["nullFree"] and doc["vv"] and doc.get("xs", True):
             # (an exact member that the validator itself rejects in strict mode is C01's / C11's finding)
